@@ -128,6 +128,106 @@ def _sut(a, b, memo):
         return a is b
 
 
+class _Scenario:
+    """a hand-built graph with the interface of gen.programs.Program the transformation loop needs"""
+    def __init__(self, name, outputs, inputs):
+        self.name, self._outputs, self._inputs = name, outputs, inputs
+        self.ops = [f"scenario:{name}"]
+        self.index = name
+
+    def expr(self):
+        import pytato as pt
+        return pt.make_dict_of_named_arrays(dict(self._outputs))
+
+    def make_inputs(self, rng):
+        return {k: np.array(v) for k, v in self._inputs.items()}
+
+    def uses_single(self):
+        return False
+
+
+def scenarios(seed):
+    """sharing patterns the seeded program stream produces rarely or never: one operand used several times by
+    one node (every multi-operand kind), wrapped data that are overlapping views of one buffer"""
+    import pytato as pt
+    rng = np.random.default_rng(seed + 57)
+    out = []
+    xv, yv = rng.integers(-3, 4, 5).astype(np.float64), rng.integers(-3, 4, 5).astype(np.float64)
+    mv = rng.integers(-2, 3, (3, 3)).astype(np.float64)
+    iv = np.array([0, 2, 1], dtype=np.int64)
+
+    def leaves():
+        return (pt.make_placeholder("x", (5,), np.float64), pt.make_placeholder("y", (5,), np.float64),
+                pt.make_placeholder("m", (3, 3), np.float64), pt.make_placeholder("i", (3,), np.int64))
+    inputs = {"x": xv, "y": yv, "m": mv, "i": iv}
+    for variant in ("leaf", "expr"):
+        x, y, m, i = leaves()
+        if variant == "expr":
+            x, m = x + 1, 2 * m
+        z = pt.zeros(2, dtype=np.float64)
+        rep = {
+            "concat-zxz": pt.concatenate([z, x, z]),
+            "concat-xx": pt.concatenate([x, x]),
+            "concat-mm-axis1": pt.concatenate([m, m, m], axis=1),
+            "concat-xyx": pt.concatenate([x, y, x]),
+            "stack-xx": pt.stack([x, x]),
+            "stack-xyx": pt.stack([x, y, x], axis=1),
+            "einsum-xx": pt.einsum("i,i->", x, x),
+            "einsum-mm": pt.einsum("ij,jk->ik", m, m),
+            "einsum-mmm": pt.einsum("ij,jk,kl->il", m, m, m),
+            "matmul-mm": m @ m,
+            "mul-xx": x * x,
+            "where-xx": pt.where(pt.greater(x, 0), x, x),
+            "maximum-xx": pt.maximum(x, x),
+            "advindex-ii": m[i, i],
+            "advindex-i-slice-i": pt.stack([m, m])[i % 2, :, i],
+            "user-of-users": pt.concatenate([x * x, x * x]) + pt.concatenate([x, x]),
+        }
+        for k, v in rep.items():
+            out.append(_Scenario(f"repeated-operand:{variant}:{k}", {"o": v, "p": v + 1}, inputs))
+        x, y, m, i = leaves()
+        t = x + y
+        out.append(_Scenario(f"same-array-two-keys:{variant}", {"a": t, "b": t, "c": pt.concatenate([t, t])}, inputs))
+
+        def f(u, v):
+            return u * 2 + v
+        x, y, m, i = leaves()
+        try:
+            out.append(_Scenario(f"call-same-argument-twice:{variant}", {"o": pt.trace_call(f, x, x) + y}, inputs))
+        except Exception:   # noqa: BLE001
+            pass
+    # wrapped data: overlapping views of one buffer
+    base = np.arange(16, dtype=np.float64) * 1.5 - 7
+    sq = base.reshape(4, 4)
+    v = pt.make_placeholder("v", (4,), np.float64)
+    vin = {"v": np.array([1.0, -2.0, 3.0, 0.5])}
+    views = {
+        "square-and-transpose": (sq, sq.T),
+        "same-pointer-other-stride": (base[:4], base[::2][:4]),
+        "same-view-twice": (base[:4], base[:4]),
+        "offset-views": (base[:4], base[4:8]),
+        "overlapping-offset": (base[1:5], base[2:6]),
+        "same-pointer-other-shape": (base[:8].reshape(2, 4), base[:8].reshape(4, 2)),
+        "same-pointer-other-dtype": (base[:4], base[:4].view(np.int64)),
+        "negative-stride": (base[:4], base[3::-1]),
+        "equal-contents-other-buffer": (base[:4], base[:4].copy()),
+        "fortran-order": (sq, np.asfortranarray(sq)),
+    }
+    for k, (a, b) in views.items():
+        da, db = pt.make_data_wrapper(a), pt.make_data_wrapper(b)
+        outs = {}
+        if a.shape == b.shape and a.dtype == b.dtype:
+            outs["diff"] = da - db
+        if a.ndim == 2:
+            outs["av"] = da @ v
+        if b.ndim == 2 and b.shape[1] == 4:
+            outs["bv"] = db @ v
+        outs["sa"] = pt.sum(da * 2)
+        outs["sb"] = pt.sum(db * 3) if b.dtype.kind == "f" else pt.sum(db % 7)
+        out.append(_Scenario(f"data-wrapper-views:{k}", outs, vin))
+    return out
+
+
 def transformations():
     import pytato as pt
     from pytato.transform import CopyMapper, deduplicate, deduplicate_data_wrappers, map_and_copy
@@ -177,10 +277,18 @@ def run(ctx: common.Ctx):
     pipelines = 0
     codegen_jobs, codegen_meta = [], []
     lean_q: list = []
-    for i in range(N):
-        tagger = make_tagger(ctx.seed * 977 + i, density=0.3) if rng.random() < 0.5 else None
-        p = programs.generate(ctx.seed + 500, i, tagger=tagger)
-        deduped = rng.random() < 0.8
+    scen = scenarios(ctx.seed)
+    ctx.coverage["scenarios"] = [sc.name for sc in scen]
+    for i in range(N + len(scen)):
+        if i < N:
+            tagger = make_tagger(ctx.seed * 977 + i, density=0.3) if rng.random() < 0.5 else None
+            p = programs.generate(ctx.seed + 500, i, tagger=tagger)
+            deduped = rng.random() < 0.8
+        else:
+            tagger = None
+            p = scen[i - N]
+            deduped = True
+            i = p.name
         try:
             base = pt.transform.deduplicate(p.expr()) if deduped else p.expr()
         except Exception as e:   # noqa: BLE001
@@ -192,7 +300,7 @@ def run(ctx: common.Ctx):
             ctx.broken.append(f"refeval:{type(e).__name__}:program{i}")
             continue
         # what to apply: each transformation singly on some programs, pipelines on others
-        if rng.random() < 0.35:
+        if isinstance(i, int) and rng.random() < 0.35:
             inner = [n for n in names if n != "preprocess"]
             seqs = [[rng.choice(inner) for _ in range(rng.randint(2, 4))]]
             if rng.random() < 0.3:
@@ -288,9 +396,10 @@ def run(ctx: common.Ctx):
                 # the real result in the Lean heap model: one combined heap of input and output objects
                 try:
                     from .. import heapser
-                    hv, (r_in, r_out) = heapser.view_many([base, cur])
+                    ign = ("@dw-by-buffer",) if seq[0] == "deduplicate_data_wrappers" else ()
+                    hv, (r_in, r_out) = heapser.view_many([base, cur], attr_ignore=ign)
                     heap = hv.sexp()
-                    hv_in, _ = heapser.view_many([base])
+                    hv_in, _ = heapser.view_many([base], attr_ignore=ign)
                     lean_q.append((i, seq[0], [f"(mapper unfoldeq {heap} {r_in} {r_out})",
                                                f"(mapper sametags {heap} {r_in} {r_out})",
                                                f"(mapper dupfree {heap} {r_out})",
@@ -332,10 +441,10 @@ def run(ctx: common.Ctx):
                         and len(codegen_jobs) < 400:
                     codegen_jobs.append(cexec.Job(tag=f"t{i}:{name}", expr=cur, runs=[inp]))
                     codegen_meta.append((i, name, ref, p))
-        if i % 20 == 0:
+        if isinstance(i, int) and i % 20 == 0:
             ctx.sample({"batch": "transformations", "program": i, "ops": sorted(set(p.ops))[:10],
                         "pre_tagged": tagger is not None})
-    ctx.note_batch("transformations-vs-reference", cases, dis, exhaustive=False, programs=N, applications=per,
+    ctx.note_batch("transformations-vs-reference", cases, dis, exhaustive=False, programs=N, scenarios=len(scen), applications=per,
                    pipelines=pipelines, not_supported=unsupported)
     # verified/structural checkers of the Lean heap model on the REAL inputs and results
     flat = [q for _, _, qs in lean_q for q in qs]
